@@ -184,6 +184,20 @@ fn catalogue() -> Vec<(Case, bool)> {
         ("o := {\"n\": 0, \"inc\": fn () {\n    this.n += 1\n    return this.n\n}}\ninc := o.inc\nprint(inc())\nprint(inc())\nprint(o.n)\n", Some("1\n2\n2\n")),
         ("fn f(..r) {\n    r[0] = 0\n}\nxs := [5, 6, 7]\nf(xs..)\nprint(xs)\nfn keep(..args) {\n    f(args..)\n    return args\n}\nprint(keep(1, 2, 3))\n", Some("[\n    5,\n    6,\n    7,\n]\n[\n    1,\n    2,\n    3,\n]\n")),
     ];
+    let mut srcs: Vec<(String, Option<String>)> = srcs.into_iter().map(|(a, b)| (a.to_string(), b.map(|x| x.to_string()))).collect();
+    {
+        // Twenty parameters, thirty arguments through a spread, a call chain
+        // fifteen deep that passes a bound method along.
+        let params: Vec<String> = (0..20).map(|k| format!("p{k:02}")).collect();
+        let args: Vec<String> = (0..20).map(|k| format!("{}", k * 3)).collect();
+        srcs.push((format!("fn wide({}) {{\n    p00 = 100\n    return [p00, p07, p19]\n}}\nprint(wide({}) == [100, 21, 57])\nxs := 0 .. 20\nprint(wide(xs..) == [100, 7, 19])\nfn tail(a, ..r) {{\n    r[28] = 0\n    return r[28] + r[27]\n}}\nys := 0 .. 30\nprint(tail(ys..))\nprint(ys[29])\n", params.join(", "), args.join(", ")), Some("true\ntrue\n28\n29\n".to_string())));
+        let mut chain = String::from("o := {\"tag\": 77, \"who\": fn () {\n    return this.tag\n}}\nfn lv15(f) {\n    return f()\n}\n");
+        for k in (1..15).rev() {
+            chain.push_str(&format!("fn lv{k:02}(f) {{\n    g := f\n    return lv{}([g][0])\n}}\n", if k == 14 { "15".to_string() } else { format!("{:02}", k + 1) }));
+        }
+        chain.push_str("print(lv01(o.who))\n");
+        srcs.push((chain, Some("77\n".to_string())));
+    }
     srcs.into_iter().map(|(s, e)| {
         let ex = match e {
             Some(t) => Expect::ok(t.as_bytes().to_vec()),
